@@ -8,6 +8,7 @@ import (
 	"encoding/json"
 	"fmt"
 	"math/rand"
+	"net/url"
 	"os"
 	"sort"
 	"strings"
@@ -117,7 +118,7 @@ func (wd *world) snapshot() (*snap, map[string]*dvc.RepoInfo, error) {
 			if strings.ContainsAny(b, ":~/ %?#") || b == "" {
 				continue
 			}
-			rr, err := wd.w.Get("/api/node/" + r.root + ":" + b + "/kv/key/whoami")
+			rr, err := wd.w.Get("/api/node/" + r.root + ":" + url.PathEscape(b) + "/kv/key/whoami")
 			if err != nil {
 				return nil, nil, err
 			}
@@ -125,7 +126,7 @@ func (wd *world) snapshot() (*snap, map[string]*dvc.RepoInfo, error) {
 			if b == "master" {
 				continue // documented to answer 400 (or an arbitrary path) once merges give master several paths
 			}
-			bv, err := wd.w.Get("/api/repo/" + r.root + "/branch-versions/" + b)
+			bv, err := wd.w.Get("/api/repo/" + r.root + "/branch-versions/" + url.PathEscape(b))
 			if err != nil {
 				return nil, nil, err
 			}
@@ -476,9 +477,20 @@ func (wd *world) gen() *request {
 		case y < 94:
 			wd.n++
 			name, nclass = fmt.Sprintf("c:%d", wd.n), "colon"
-		default:
+		case y < 97:
 			wd.n++
 			name, nclass = fmt.Sprintf("t~%d", wd.n), "tilde"
+		default:
+			// a name that differs from master / an existing branch only by surrounding white space is a name of its own
+			base := "master"
+			if wd.r.Intn(2) == 0 {
+				for b := range n.repo.branches {
+					if b != "" && (base == "master" || b < base) {
+						base = b
+					}
+				}
+			}
+			name, nclass = []string{" " + base + " ", base + " ", " " + base, "\t" + base}[wd.r.Intn(4)], "padded"
 		}
 		body := map[string]string{"branch": name, "note": "br"}
 		if uclass != "none" {
@@ -776,7 +788,43 @@ func sequence(c *drv.Ctx, bin string, seed int64, idx, nreq int) error {
 	}
 	reported := map[string]bool{}
 	prevBad := map[string]bool{}
+	rr := rand.New(rand.NewSource(seed ^ 0x5eed))
 	for i := 0; i < nreq; i++ {
+		if idx%2 == 1 && i > 0 && rr.Intn(8) == 0 {
+			// every second sequence is a history with server restarts between requests: the identifier counters and maps
+			// are rebuilt from what was persisted, and the requests that follow allocate from them
+			if err := w.Exit("clean"); err != nil {
+				return fmt.Errorf("stopping the server before step %d: %v", i, err)
+			}
+			w2, err := drv.StartWorker(bin, dir, drv.StartOpts{})
+			if err != nil {
+				c.Violation("restart:start-fails", fmt.Sprintf("the server does not start again before step %d: %v; stderr: %s", i, err, drv.Trunc(drv.FatalInStderr(w2.Stderr()), 600)), map[string]interface{}{"seed": seed, "sequence": idx, "step": i, "last_requests": tailS(wd.trace, 25)})
+				return nil
+			}
+			w = w2
+			defer w2.Kill()
+			wd.w, wd.cl.W = w2, w2
+			wd.trace = append(wd.trace, "-- server restarted --")
+			c.Count("restarts_inside_sequences", 1)
+			after, repos, err := wd.snapshot()
+			if err != nil {
+				return fmt.Errorf("snapshot after the restart before step %d: %v; stderr: %s", i, err, drv.FatalInStderr(w.Stderr()))
+			}
+			c.Case(fmt.Sprintf("restart|%d|%d", idx, i), len(after.Graph) >= 3)
+			var bad []string
+			for _, b := range invariants(repos) {
+				if !prevBad[b] {
+					bad = append(bad, b)
+				}
+			}
+			if d := diffSnap(before, after); d != "" {
+				bad = append(bad, "graph / branch heads / uuid resolution differ from before the restart: "+d)
+			}
+			for _, b := range bad {
+				c.Violation("restart:"+strings.SplitN(b, ":", 2)[0], fmt.Sprintf("after a server restart before step %d: %s", i, b), map[string]interface{}{"seed": seed, "sequence": idx, "step": i, "last_requests": tailS(wd.trace, 25)})
+			}
+			before = after
+		}
 		rq := wd.gen()
 		if rq == nil {
 			continue
@@ -932,4 +980,11 @@ func run(c *drv.Ctx) error {
 		return fmt.Errorf("%s", strings.Join(errs, " | "))
 	}
 	return nil
+}
+
+func tailS(s []string, n int) []string {
+	if len(s) > n {
+		return s[len(s)-n:]
+	}
+	return s
 }
